@@ -460,6 +460,64 @@ func genExact(r *rng, c genCfg) *scenario {
 	return sc
 }
 
+// genHopCycle (C05, clause a): single-input *named* converters forming a cycle over one name, the caller's
+// values carrying subtypes the parameters do not have (so that the values enter through the "no subtype
+// takes some subtype" edges), and a target that needs something only the cycle produces.
+func genHopCycle(r *rng, c genCfg) *scenario {
+	sc := &scenario{errOwner: map[int]int{}}
+	n := c.names[r.intn(len(c.names))]
+	k := 2 + r.intn(2) // cycle length
+	tys := r.perm(7)[:k+1]
+	z := tys[k]
+	tl := lab{Ty: z}
+	if r.chance(1, 3) {
+		tl.Name = c.names[r.intn(len(c.names))]
+		if tl.Name == n {
+			tl.Name = ""
+		}
+	}
+	target := &fnSpec{ID: 0, Ins: []lab{tl}, Script: "ok", OForm: "pos", Outs: []lab{{Ty: r.intn(4)}}, Dyn: []int{-1}}
+	target.Form = formFor(r, c, target.Ins)
+	sc.Funcs = append(sc.Funcs, target)
+	at := r.intn(k) // the converter that also yields what the target needs
+	var ids []int
+	for i := 0; i < k; i++ {
+		outs := []lab{{Name: n, Ty: tys[(i+1)%k]}}
+		if i == at {
+			outs = append(outs, tl)
+		}
+		f := c.newConv(r, sc, outs, []lab{{Name: n, Ty: tys[i]}})
+		f.Script, f.Once, f.HasErr = "ok", false, r.chance(1, 2)
+		ids = append(ids, f.ID)
+	}
+	vid := 0
+	subs := []string{"s", "y", "x"}
+	for i := 0; i < k; i++ {
+		if i < 2 || r.chance(1, 2) {
+			vid++
+			o := optSpecC{Kind: "namedsub", Name: n, Ty: tys[i], Vid: vid, Sub: subs[r.intn(3)]}
+			if r.chance(1, 6) {
+				o.Kind, o.Sub = "named", ""
+			}
+			sc.Opts = append(sc.Opts, o)
+		}
+	}
+	for _, id := range r.perm(len(ids)) {
+		kind := "conv"
+		if sc.Funcs[ids[id]].Form == "built" || r.chance(1, 2) {
+			kind = "convfunc"
+		}
+		sc.Opts = append(sc.Opts, optSpecC{Kind: kind, Fids: []int{ids[id]}})
+	}
+	p := r.perm(len(sc.Opts))
+	shuf := make([]optSpecC, len(sc.Opts))
+	for i, j := range p {
+		shuf[i] = sc.Opts[j]
+	}
+	sc.Opts = shuf
+	return sc
+}
+
 // genHopeless (C02 / C13): a general scenario in which one target parameter is made hopeless
 // (type 9 is never supplied nor produced) or merely underivable (a converter produces it but needs
 // something unavailable, possibly through a cycle).
